@@ -277,6 +277,15 @@ def getitem(eng, st, base, sl):
             out = Row(ln, lambda q, r=r, lo=lo: r.fn(lo + q), r.esort)
             out.slice_of = (r, lo, ln)          # lets a scatter store quantify over positions of the sliced row (no offset arithmetic)
             return out
+        if kind[0] == 'mask' and isinstance(base, Ref):
+            # W[mask] for W = np.where(c)[0] (ascending positions where c holds) and a mask over the positions of W: the nodes w with c(w) whose
+            # position in W is selected, ascending -- again the result of an np.where over the node range, with the combined condition
+            bm = st.heap[base.oid].meta or {}
+            widx_, cW, nW = bm.get('where_idx'), bm.get('where_cond1'), bm.get('where_n')
+            if widx_ is not None and cW is not None and nW is not None:
+                mk = kind[1]
+                comb = Row(nW, lambda w, cW=cW, mk=mk, widx_=widx_: z3.And(truth(cW(w)), truth(mk.fn(widx_(w)))), BOOL)
+                return np_where(eng, st, [comb], {}, None)[0]
         raise OutOfSubset('1-D index kind %s' % kind[0])
     if nd == 2:
         m = as_mat(eng, st, base)
@@ -564,6 +573,20 @@ def setitem(eng, st, base, sl, val, node):
         x0 = k0[1]
         n1 = to_z3(o.shape[1], INT)
         newrow = define1(st, o.esort, lambda yy: z3.If(z3.And(yy >= 0, yy < n1, truth(cond(yy))), to_z3(dv.fn(widx(yy)), o.esort), z3.Select(z3.Select(old, x0), yy)))
+        o.term = z3.Store(old, x0, newrow)
+        return
+    if k0[0] == 'int' and k1[0] == 'fancy' and not isinstance(val, (Ref, Row, Mat)):
+        # M[x, W] = scalar with W the result of a 1-D np.where(cond): every entry y of row x with cond(y) becomes the scalar
+        wv = eng.ev(elts[1], st)
+        meta = st.heap[wv.oid].meta if isinstance(wv, Ref) else {}
+        if meta.get('where_cond1') is None:
+            raise OutOfSubset('row store through an index array that is not the result of np.where')
+        cond = meta['where_cond1']
+        v = to_z3(val, o.esort)
+        bounds(eng, st, k0[1], o.shape[0], 'storerow:%s' % ast.unparse(node)[:24])
+        x0 = k0[1]
+        n1 = to_z3(o.shape[1], INT)
+        newrow = define1(st, o.esort, lambda yy: z3.If(z3.And(yy >= 0, yy < n1, yy < to_z3(meta['where_n'], INT), truth(cond(yy))), v, z3.Select(z3.Select(old, x0), yy)))
         o.term = z3.Store(old, x0, newrow)
         return
     if k0[0] == 'fancy' and k1[0] == 'fancy' and not isinstance(val, (Ref, Row, Mat)):
